@@ -5,6 +5,9 @@
 // inlined away.
 package verifhook
 
+// Enabled reports whether the hooks are compiled in.
+const Enabled = false
+
 // Tick counts one logical step at site.
 func Tick(site string) {}
 
